@@ -196,10 +196,20 @@ Section WithEnv.
     struct_ok (tbl_match (h_tbl h)) e (h_class h) (h_init h) &&
     hist_safe (tbl_match (h_tbl h)) e (h_class h) (h_init h) (mops_of h).
 
+  (* the part of the spec the theorem speaks about: the state after the step (not the exception class) *)
+  Definition step_state_bad (tbl : table) (c : classdef) (pre : attrs) (s : ostep) : bool :=
+    match o_out s with
+    | Done => negb (state_ok_dom tbl c (post_of pre s))
+    | Raised _ => negb (attrs_same c pre (post_of pre s))
+    end.
+
+  Definition hist_state_bad (h : hcase) : nat :=
+    first_bad (step_state_bad (h_tbl h) (h_class h)) (h_init h) (h_steps h) 0.
+
   (* when they hold, the theorem predicts: every step good.  Evaluated on the OBSERVED trace this is a
      check of the theorem's conclusion against the implementation. *)
   Definition theorem_contradicted (h : hcase) : bool :=
-    hyps_hold h && negb (Nat.eqb (hist_spec_bad h) 0) && Nat.eqb (hist_mismatch h) 0.
+    hyps_hold h && negb (Nat.eqb (hist_state_bad h) 0) && Nat.eqb (hist_mismatch h) 0.
 End WithEnv.
 
 (* indices (within each table) of the entries that are not safe NOW *)
